@@ -304,7 +304,46 @@ func flatten(c Cond) []Cond {
 	if u, ok := c.V.(*ssa.UnOp); ok && u.Op == token.NOT {
 		return flatten(Cond{V: u.X, Pol: !c.Pol, If: c.If, Sub: c.Sub})
 	}
+	// a comparison written constant-first (`Running == x.state`, `0 >= n`) is presented the usual way round
+	if b, ok := c.V.(*ssa.BinOp); ok {
+		if _, xConst := b.X.(*ssa.Const); xConst {
+			if _, yConst := b.Y.(*ssa.Const); !yConst {
+				if op, ok := mirrorOp(b.Op); ok {
+					c.V = mirrored(b, op)
+				}
+			}
+		}
+	}
 	return []Cond{c}
+}
+
+func mirrorOp(op token.Token) (token.Token, bool) {
+	switch op {
+	case token.EQL, token.NEQ:
+		return op, true
+	case token.LSS:
+		return token.GTR, true
+	case token.GTR:
+		return token.LSS, true
+	case token.LEQ:
+		return token.GEQ, true
+	case token.GEQ:
+		return token.LEQ, true
+	}
+	return op, false
+}
+
+var mirrorMemo = map[*ssa.BinOp]*ssa.BinOp{}
+
+// mirrored returns a stand-in for b with its operands exchanged (one per b, so identity comparisons stay stable).
+// It is only ever read for Op, X and Y.
+func mirrored(b *ssa.BinOp, op token.Token) *ssa.BinOp {
+	if m, ok := mirrorMemo[b]; ok {
+		return m
+	}
+	m := &ssa.BinOp{Op: op, X: b.Y, Y: b.X}
+	mirrorMemo[b] = m
+	return m
 }
 
 // RawInstrConds: the dominating branch conditions themselves, without what they imply through helpers and flags.
